@@ -107,8 +107,8 @@ ORDER_CORPUS = [["0"], ["0", "1"], ["1", "0"], ["2", "0", "1"], ["0", "0"], ["0"
 
 def main(argv):
     ck = Check("C19", argv)
-    ck.rule = ("accesses x(i0..ik) on `int *x @dim(D0..Dk) [@dimOrder(perm)]` for arities 1-4 (thorough: -6), ALL permutations "
-               "of each arity, index and dimension arguments whose top-level operator is drawn from each of 15 C precedence "
+    ck.rule = ("accesses x(i0..ik) on `int *x @dim(D0..Dk) [@dimOrder(perm)]` for arities 1-4 (thorough: -6), all permutations "
+               "of each arity (quick tier: 12 of the 24 for arity 4), index and dimension arguments whose top-level operator is drawn from each of 15 C precedence "
                "classes (atoms, parenthesised, unary, cast, * / %, + -, shifts, relational, equality, &, ^, |, &&, ||, ?:), "
                "evaluated for ~8 run-time value tuples; plus, for small literal dimensions, every in-range index tuple "
                "(bijection checked on the executed values); plus @dimOrder argument lists (permutations, duplicates, "
@@ -146,6 +146,8 @@ def main(argv):
             perms = list(itertools.permutations(range(k)))
             if k > 4:
                 perms = r.sample(perms, 40)
+            elif k == 4 and ck.tier == "quick":
+                perms = r.sample(perms, 12)         # all 24 in the thorough tier
             for rep in range(reps):
                 for pi, perm in enumerate([None] + perms):
                     kid += 1
